@@ -275,8 +275,24 @@ func Hazards(p *Program) []string {
 	// (the interpreter iterates the live list with a cursor stored in the list value)
 	var checkFor func(f For)
 	checkFor = func(f For) {
-		v, ok := f.Iter.(Var)
-		if !ok || (v.Ty.K != TList && v.Ty.K != TRange) {
+		// the iterated value is stored data: a variable, or a list reached through index/member
+		var it Expr = f.Iter
+		for {
+			switch x := it.(type) {
+			case Index:
+				it = x.X
+				continue
+			case Member:
+				it = x.X
+				continue
+			case Grouped:
+				it = x.X
+				continue
+			}
+			break
+		}
+		v, ok := it.(Var)
+		if !ok || (v.Ty.K != TList && v.Ty.K != TRange && v.Ty.K != TObj) {
 			return
 		}
 		hazard := false
@@ -288,17 +304,16 @@ func Hazards(p *Program) []string {
 					hazard = true
 				}
 			case MCall:
-				if r, ok := e.Recv.(Var); ok && r.Name == v.Name && (e.Name == "push" || e.Name == "pop" || e.Name == "push_front" || e.Name == "pop_front") {
+				// any list mutation inside the body may reach the iterated list through an alias
+				if e.Name == "push" || e.Name == "pop" || e.Name == "push_front" || e.Name == "pop_front" {
 					hazard = true
 				}
 				if e.Name == "unwrap" {
 					hazard = true
 				}
 			case Assign:
-				if ix, ok := e.Target.(Index); ok {
-					if r, ok := ix.X.(Var); ok && r.Name == v.Name {
-						hazard = true
-					}
+				if _, ok := e.Target.(Index); ok {
+					hazard = true
 				}
 				if r, ok := e.Target.(Var); ok && r.Name == v.Name {
 					hazard = true
